@@ -124,15 +124,22 @@ pub fn token_module(ctx: &Ctx, idx: u64) -> Report {
             let mut store = TokenStore::new();
             let mut oracle = TokenOracle::default();
             let n_ips = rng.gen_range(1..=50);
-            let ips: Vec<IpAddr> = (0..n_ips)
-                .map(|i| {
-                    if rng.gen_bool(0.5) {
-                        v4(30, 0, i as u8, rng.gen(), 1).ip()
-                    } else {
-                        v6(9, i as u64 * 7 + 1, 1).ip()
-                    }
+            let mut ips: Vec<IpAddr> = (0..n_ips)
+                .map(|i| match rng.gen_range(0..10) {
+                    0..=3 => v4(30, 0, i as u8, rng.gen(), 1).ip(),
+                    4..=6 => v6(9, i as u64 * 7 + 1, 1).ip(),
+                    // special IPv6 forms (IPv4-mapped / -compatible, NAT64, 6to4, link-local ...)
+                    _ => gen::addr_v6(&mut rng).ip(),
                 })
                 .collect();
+            // an IPv4-mapped address and its plain IPv4 twin are different IPs
+            for ip in ips.clone() {
+                if let IpAddr::V6(a) = ip {
+                    if let Some(v4twin) = a.to_ipv4_mapped() {
+                        ips.push(IpAddr::V4(v4twin));
+                    }
+                }
+            }
             let mut held: Vec<(Vec<u8>, IpAddr, Micros)> = Vec::new();
             let len = rng.gen_range(20..1500);
             let fast = rng.gen_bool(0.4);
@@ -253,12 +260,19 @@ pub fn store_module(ctx: &Ctx, idx: u64) -> Report {
             let fast = rng.gen_bool(0.5);
             let mut trace: Vec<String> = Vec::new();
             report.evaluations += 1;
+            // the pair whose expiry instant the clock was just moved to: re-announced first thing in half
+            // of the cases (a renewal arriving exactly when its predecessor runs out, before anything else
+            // has touched the store)
+            let mut renew_first: Option<(Id, SocketAddr)> = None;
             for _ in 0..len {
                 let t = now();
-                match rng.gen_range(0..10) {
+                match if renew_first.is_some() { 0 } else { rng.gen_range(0..10) } {
                     0..=5 => {
                         let mut key = (*hashes.choose(&mut rng).unwrap(), *addrs.choose(&mut rng).unwrap());
-                        if rng.gen_bool(0.15) && !model.pairs.is_empty() {
+                        if let Some(k) = renew_first.take() {
+                            key = k;
+                            report.count("renewals_right_at_the_expiry_instant");
+                        } else if rng.gen_bool(0.15) && !model.pairs.is_empty() {
                             // re-announce a pair that is (or recently was) stored
                             let k = rng.gen_range(0..model.pairs.len());
                             key = *model.pairs.keys().nth(k).unwrap();
@@ -332,7 +346,11 @@ pub fn store_module(ctx: &Ctx, idx: u64) -> Report {
                             1 => rng.gen_range(0..3 * HOUR),
                             2 => {
                                 // jump to just around the expiry of some stored pair
-                                let target = model.pairs.values().copied().min().map(|m| m + DAY).unwrap_or(t);
+                                let oldest = model.pairs.iter().min_by_key(|(_, at)| **at).map(|(k, at)| (*k, *at));
+                                let target = oldest.map(|(_, m)| m + DAY).unwrap_or(t);
+                                if rng.gen_bool(0.5) {
+                                    renew_first = oldest.map(|(k, _)| k);
+                                }
                                 (target + rng.gen_range(0..3 * MS)).saturating_sub(t + MS)
                             }
                             3 => rng.gen_range(0..10 * MIN),
@@ -409,7 +427,15 @@ pub fn handler_history(ctx: &Ctx, idx: u64, check: &'static str) -> Report {
             let _ = rng;
             let port = fresh_port();
             Client {
-                addr: if fam6 { v6(9, ip as u64 + 1, port) } else { v4(30, 0, ip as u8, 1, port) },
+                // every fourth IPv6 client IP is the IPv4-mapped form of the IPv4 client IP with the
+                // same index (a dual-stack socket's view of that peer): different IPs for tokens
+                addr: if fam6 && ip % 4 == 3 {
+                    std::net::SocketAddr::new(std::net::Ipv4Addr::new(30, 0, ip as u8, 1).to_ipv6_mapped().into(), port)
+                } else if fam6 {
+                    v6(9, ip as u64 + 1, port)
+                } else {
+                    v4(30, 0, ip as u8, 1, port)
+                },
             }
         };
 
